@@ -69,6 +69,9 @@ def cases(tier):
     for lay in (['t0_test.ucg', 'sub/t1_test.ucg'], ['sub/t0_test.ucg', 't1_test.ucg'], ['a/t0_test.ucg', 'b/deep/t1_test.ucg']):
         for fs_ in ([['sym'], ['sym']], [['sym'], ['sym', 'runtime-error']], [['not-bool'], ['sym']]):
             cs.append({'files': fs_, 'layout': lay})
+    # three entries in one directory (the listing order is a symbolic permutation): the run fails iff some file fails, wherever it is listed
+    cs.append({'files': [['sym'], ['sym'], ['sym']], 'layout': ['a/t0_test.ucg', 'b/t1_test.ucg', 'c/t2_test.ucg']})
+    cs.append({'files': [['sym'], ['sym'], ['sym']], 'layout': ['a/t0_test.ucg', 't1_test.ucg', 'c/x/t2_test.ucg']})
     cs.append({'files': [['sym-desc-first'], ['sym']]})
     cs.append({'files': [['sym'], ['sym-extra-fields', 'sym-by-copy']]})
     pairs = [['sym'], ['sym', 'sym'], ['not-bool'], ['build-error'], [], ['sym', 'runtime-error'], ['runtime-error']]
@@ -169,7 +172,9 @@ def harness(ctx, case):
             return out
         verdict_pass = ('File %s Pass' % e['name']) in sec
         verdict_fail = ('File %s Fail' % e['name']) in sec
-        summary_pass = ('%s - PASS' % e['name']) in sec
+        # the RESULTS block of a directory is printed when the directory has been listed completely, i.e. possibly inside the
+        # section of a file validated later: look for the summary line in the whole output (file names are unique)
+        summary_pass = re.search(r'(?m)^%s - PASS$' % re.escape(e['name']), stdout) is not None
         if (verdict_pass and verdict_fail) or (e['builds'] and not e['malformed'] and not (verdict_pass or verdict_fail)):
             report('C13:no-single-verdict', 'file %s has no single Pass/Fail verdict line' % e['name'])
             return out
@@ -195,33 +200,50 @@ def harness(ctx, case):
 
 
 def judge_cli(fw, v):
-    """replay through the real binary: `ucg test f1 f2 ...` in a temp dir"""
+    """replay through the real binary: `ucg test f1 f2 ...` in a temp dir. For directory trees the order in which the real file
+    system lists a directory depends on the entry names, so the tree is replayed under several consistent renamings of its
+    directories and file-name prefixes; the violation is reproduced if any of them shows it."""
+    import itertools
     import tempfile
     c = v['case']
-    with tempfile.TemporaryDirectory(prefix='ucg-verif-c13-') as d:
-        for n, t in c['files'].items():
-            os.makedirs(os.path.dirname(os.path.join(d, n)), exist_ok=True)
-            open(os.path.join(d, n), 'w').write(t)
-        args = ['test', '-r', 'proj'] if c.get('recurse') else ['test'] + c['order']
-        r = fw.native().cli(args, d)
-    fw.replayed += 1
-    v['native'] = r
-    bad = False
-    for e in v['expected']:
-        p = ('File %s Pass' % e['name']) in r['stdout']
-        if p != e['pass']:
+    renamings = [{}]
+    if c.get('recurse'):
+        comps = sorted({p for n in c['files'] for p in n.split('/')[1:-1]})
+        pool = ['a', 'b', 'c', 'd', 'e', 'k', 'm', 'q', 'x', 'z']
+        for perm in itertools.islice(itertools.permutations(pool, len(comps)), 0, 400, 37):
+            renamings.append(dict(zip(comps, perm)))
+        renamings = renamings[:12]
+    for ren in renamings:
+        def rn(path):
+            parts = path.split('/')
+            return '/'.join([parts[0]] + [ren.get(x, x) for x in parts[1:-1]] + [parts[-1]]) if len(parts) > 1 else path
+        with tempfile.TemporaryDirectory(prefix='ucg-verif-c13-') as d:
+            for n, t in c['files'].items():
+                os.makedirs(os.path.dirname(os.path.join(d, rn(n))), exist_ok=True)
+                open(os.path.join(d, rn(n)), 'w').write(t)
+            args = ['test', '-r', 'proj'] if c.get('recurse') else ['test'] + c['order']
+            r = fw.native().cli(args, d)
+        fw.replayed += 1
+        bad = False
+        for e in v['expected']:
+            p = ('File %s Pass' % rn(e['name'])) in r['stdout']
+            if p != e['pass']:
+                bad = True
+        if (r['rc'] != 0) != any(not e['pass'] for e in v['expected']):
             bad = True
-    if (r['rc'] != 0) != any(not e['pass'] for e in v['expected']):
-        bad = True
-    if v['key'].startswith('C13:log-not-own'):
-        bad = True if re.search(r'(?s)Validating t1_test.ucg.*f0a\d', r['stdout']) else bad
-    return bad
+        if v['key'].startswith('C13:log-not-own'):
+            bad = True if re.search(r'(?s)Validating t1_test.ucg.*f0a\d', r['stdout']) else bad
+        if bad or not c.get('recurse'):
+            v['native'] = dict(r, renaming=ren)
+            return bad
+    v['native'] = dict(r, renamings_tried=len(renamings))
+    return False
 
 
 def run(fw):
     cs = cases(fw.tier)
     fw.bounds.update({'files_per_invocation': '1..3', 'assertions_per_file': '0..3', 'assertion_forms': list(FORMS), 'outcomes': 'symbolic (i64 operand > 0)',
-                      'directory_trees': '3 layouts tested with -r (files at depth 0..2)', 'outside': 'stdout layout beyond verdict/summary/log lines, import of other files'})
+                      'directory_trees': '5 layouts tested with -r (files at depth 0..2, 2..3 entries per directory, listing order symbolic)', 'outside': 'stdout layout beyond verdict/summary/log lines, import of other files'})
     fw.explore('test-command', harness, cs, fuel=200_000_000)
     for v in fw.violations:
         v['reproduced'] = judge_cli(fw, v)
